@@ -219,5 +219,18 @@ pub fn programs() -> Vec<(String, Program)> {
         ];
         out.push(("cow-args".into(), Program { defs, roots }));
     }
+    // 10. compact fields of a type parameter (T: HasCompact), two instantiations; a wrapper
+    //     reachable from its user only through a Compact
+    {
+        let defs = vec![
+            strukt(&["k", "Amount"], &[("Balance", false)], vec![fc(Some("value"), Src::Param(0)), f(Some("memo"), Src::Prim("str"))]),
+            strukt(&["k", "TupleAmount"], &[("B", false)], vec![fc(None, Src::Param(0))]),
+            strukt(&["k", "Percent"], &[], vec![f(None, Src::Prim("u8"))]),
+            strukt(&["k", "Payout"], &[], vec![fc(Some("share"), Src::App(2, vec![])), f(Some("to"), Src::Prim("u32"))]),
+            strukt(&["k", "Ledger"], &[], vec![f(Some("fee"), Src::App(0, vec![Src::Prim("u32")])), f(Some("stake"), Src::App(0, vec![Src::Prim("u64")])),
+                                               f(Some("t"), Src::App(1, vec![Src::Prim("u16")])), f(Some("t2"), Src::App(1, vec![Src::Prim("u128")]))]),
+        ];
+        out.push(("compact-params".into(), Program { defs, roots: vec![Src::App(4, vec![]), Src::App(3, vec![])] }));
+    }
     out
 }
